@@ -29,8 +29,12 @@
 //
 // observed: `h1=<client>|<server>|<echo> [h2=...]` where an end is
 // `ok:<vers>:<suite>:<alpn|->:<resumed>:<peer certs as S/E/? symbols|->:<server name|->` or `fail`,
-// echo is ok|bad|-; `timeout` replaces an end that had to be aborted by the watchdog.
-// The error texts follow as `e1c= e1s= ...` (secondary: reported by the oracle as notes only).
+// echo is ok|bad|-; `timeout` replaces an end that had not returned from Handshake by itself when the
+// harness gave up: 4 s (endGrace; 1 s once 16 such ends were seen in the run) after the other end had
+// failed, or at the watchdog's limit.
+// For a connection that failed, `w1=<client>/<server>` says how each end came to its end (ok | own |
+// alert | eof | timeout) and the error texts follow as `e1c= e1s= ...` (all secondary: reported by
+// the oracle as notes only).
 package main
 
 import (
@@ -41,6 +45,7 @@ import (
 	"strconv"
 	"strings"
 	"sync"
+	"sync/atomic"
 	"time"
 
 	"github.com/emmansun/gmsm/smx509"
@@ -272,13 +277,39 @@ func parseHist(cc cliCfg, sc srvCfg, hist string) []histStep {
 
 // ---------------------------------------------------------------------------- running
 
+// endGrace: how long the other end may take to return from Handshake once one end has FAILED.
+// The transports are lossless and deliver at once, so an end that is told (TLCP: the fatal alert or
+// the end of the stream; DTLCP: the fatal alert — a datagram socket that is closed says nothing to
+// its peer) returns within milliseconds, long before any retransmission timer (6 s here) could fire.
+// An end that is still waiting / retransmitting after this time has not been told: its handshake
+// does not end by the protocol's own means — gotlcp's DTLCP handshake retransmits with a back-off
+// capped at MaxRetransmitTimeout for ever, it has no retry limit — but only because the harness
+// gives up. Such an end is reported as `timeout`.
+const endGrace = 4 * time.Second
+
+// Once 16 ends of this run have been found waiting like that, the implementation under test is
+// known not to end such handshakes and the remaining cases wait 1 s instead (still a thousand times
+// what an end that is told needs): a run against such an implementation stays within its time limit.
+const endGraceAfter, endGraceShort = 16, 1 * time.Second
+
+var hangsSeen atomic.Int32
+
+func graceNow() time.Duration {
+	if hangsSeen.Load() >= endGraceAfter {
+		return endGraceShort
+	}
+	return endGrace
+}
+
 // runBoth runs the two handshakes concurrently. An endpoint whose handshake fails closes its
-// transport end (what an application does with a connection whose handshake failed), so the
-// peer is not left waiting for bytes that will never come. A watchdog aborts both ends.
+// transport end (what an application does with a connection whose handshake failed): on a stream
+// the peer then reads the end of the stream; on datagrams it learns nothing from that. The
+// watchdog aborts both ends after `timeout`, or `endGrace` after the first end returned an error.
 func runBoth(ch, sh func() error, closeC, closeS func(), timeout time.Duration) (cerr, serr error, cHung, sHung bool) {
 	var wg sync.WaitGroup
 	var mu sync.Mutex
 	cDone, sDone := false, false
+	failed := make(chan struct{}, 2)
 	wg.Add(2)
 	go func() {
 		defer wg.Done()
@@ -291,6 +322,7 @@ func runBoth(ch, sh func() error, closeC, closeS func(), timeout time.Duration) 
 		mu.Unlock()
 		if err != nil {
 			closeC()
+			failed <- struct{}{}
 		}
 	}()
 	go func() {
@@ -304,19 +336,33 @@ func runBoth(ch, sh func() error, closeC, closeS func(), timeout time.Duration) 
 		mu.Unlock()
 		if err != nil {
 			closeS()
+			failed <- struct{}{}
 		}
 	}()
 	done := make(chan struct{})
 	go func() { wg.Wait(); close(done) }()
-	select {
-	case <-done:
-	case <-time.After(timeout):
+	abort := func() {
 		mu.Lock()
 		cHung, sHung = !cDone, !sDone
 		mu.Unlock()
 		closeC()
 		closeS()
 		<-done
+	}
+	overall := time.After(timeout)
+	select {
+	case <-done:
+	case <-overall:
+		abort()
+	case <-failed:
+		select {
+		case <-done:
+		case <-overall:
+			abort()
+		case <-time.After(graceNow()):
+			hangsSeen.Add(1)
+			abort()
+		}
 	}
 	return
 }
@@ -392,6 +438,22 @@ func canonErr(s string) string {
 	return errCleaner.Replace(s)
 }
 
+// endedBy: how a handshake end came to its end — ok, own (an error it raised itself), alert (the
+// peer's fatal alert), eof (the transport ended / failed), timeout (it never returned by itself)
+func endedBy(e endState, hung bool) string {
+	switch {
+	case hung:
+		return "timeout"
+	case e.ok:
+		return "ok"
+	case strings.Contains(e.err, "remote error"):
+		return "alert"
+	case strings.Contains(e.err, "EOF") || strings.Contains(e.err, "closed") || strings.Contains(e.err, "broken pipe"):
+		return "eof"
+	}
+	return "own"
+}
+
 func observe(rs []hsResult) string {
 	var main, errs []string
 	for i, r := range rs {
@@ -405,7 +467,8 @@ func observe(rs []hsResult) string {
 		}
 		main = append(main, fmt.Sprintf("h%d=%s|%s|%s", i+1, c, s, dash(r.echo)))
 		if !r.c.ok || !r.s.ok {
-			errs = append(errs, fmt.Sprintf("e%dc=%s e%ds=%s", i+1, canonErr(r.c.err), i+1, canonErr(r.s.err)))
+			errs = append(errs, fmt.Sprintf("w%d=%s/%s e%dc=%s e%ds=%s", i+1, endedBy(r.c, r.cHung), endedBy(r.s, r.sHung),
+				i+1, canonErr(r.c.err), i+1, canonErr(r.s.err)))
 		}
 	}
 	return strings.Join(append(main, errs...), " ")
@@ -439,9 +502,36 @@ func execute(desc string) string {
 	return observe(rs)
 }
 
-// runAll executes the cases on a pool of workers and writes the lines in case order.
-func runAll(tr *hx.Trace, cases []string, workers int) {
+// lineWriter writes `case => observed` lines and hands every line to the reader at once (the trace
+// goes through a FIFO to the oracle): when a mutated implementation makes the run slow — every
+// handshake that does not end costs endGrace — the verdicts on the cases done so far are not lost
+// with a driver that is killed at the phase's time limit.
+type lineWriter struct {
+	f *os.File
+}
+
+func newLineWriter(path string) *lineWriter {
+	if path == "" {
+		return &lineWriter{f: os.Stdout}
+	}
+	f, err := os.Create(path)
+	if err != nil {
+		fmt.Fprintln(os.Stderr, err)
+		os.Exit(2)
+	}
+	return &lineWriter{f: f}
+}
+
+func (w *lineWriter) Line(c, o string) { w.f.WriteString(c + " => " + o + "\n") }
+func (w *lineWriter) Close()           { w.f.Close() }
+
+// runAll executes the cases on a pool of workers and writes the lines in case order, each as soon
+// as it and all cases before it are done.
+func runAll(tr *lineWriter, cases []string, workers int) {
 	out := make([]string, len(cases))
+	ready := make([]bool, len(cases))
+	var mu sync.Mutex
+	written := 0
 	var wg sync.WaitGroup
 	next := make(chan int, len(cases))
 	for i := range cases {
@@ -453,19 +543,23 @@ func runAll(tr *hx.Trace, cases []string, workers int) {
 		go func() {
 			defer wg.Done()
 			for i := range next {
-				out[i] = execute(cases[i])
+				o := execute(cases[i])
+				mu.Lock()
+				out[i], ready[i] = o, true
+				for written < len(cases) && ready[written] {
+					tr.Line(cases[written], out[written])
+					written++
+				}
+				mu.Unlock()
 			}
 		}()
 	}
 	wg.Wait()
-	for i, c := range cases {
-		tr.Line(c, out[i])
-	}
 }
 
 func main() {
 	o := hx.ParseOpts()
-	tr := hx.NewTrace(o.Out)
+	tr := newLineWriter(o.Out)
 	defer tr.Close()
 	pki.Std()
 	workers := runtime.GOMAXPROCS(0)
